@@ -19,15 +19,67 @@ if [ $need -eq 1 ]; then
 fi
 ev=evidence/$id.json
 rm -f "$ev"
-if [ "$tier" = thorough ]; then
-  ./bin/tabverif -prop "$id" -tier thorough -repo "$REPO" -known known-findings.txt -out "$ev"
-  rc=$?
-  exit $rc
-fi
-./bin/tabverif -prop "$id" -tier quick -repo "$REPO" -known known-findings.txt -out "$ev"
+run() { # run <out> <extra flags...>
+  out=$1; shift
+  ./bin/tabverif -prop "$id" -tier "$tier" -repo "$REPO" -known known-findings.txt -out "$out" "$@"
+}
+run "$ev"
 rc=$?
 if [ $rc -ne 0 ] && [ $rc -ne 1 ]; then
   echo "VIOLATION property=$id replay=$ev (checker could not analyse the tree: exit $rc)"
+  exit 1
+fi
+[ "$tier" = thorough ] || exit $rc
+
+# ---- thorough: the same rules under other build configurations and a coarser call graph must give the
+# same obligations and verdicts; then the self-test mutants of this property are replayed (recorded only).
+tmp=$(mktemp -d /tmp/tabverif-thorough.XXXXXX)
+trap 'rm -rf "$tmp"' EXIT
+GOARCH=386 run "$tmp/386.json" -goarch 386 >"$tmp/386.out" 2>&1; rc386=$?
+run "$tmp/tags.json" -tags verif >"$tmp/tags.out" 2>&1; rctags=$?
+run "$tmp/cha.json" -cg cha >"$tmp/cha.out" 2>&1; rccha=$?
+worst=$rc
+# the CHA graph is a coarser superset of VTA: its result is recorded for comparison, never decisive
+for r in $rc386 $rctags; do [ $r -ne 0 ] && worst=1; done
+python3 - "$ev" "$tmp" "$id" "$rc386" "$rctags" "$rccha" <<'PY'
+import json,sys,os,subprocess,glob
+ev,tmp,pid,rc386,rctags,rccha=sys.argv[1:7]
+e=json.load(open(ev))
+base=set(e['coverage'].get('obligation_keys',[]))
+th={}
+for name,rc in (('goarch_386',rc386),('tags_verif',rctags),('call_graph_cha',rccha)):
+    f=os.path.join(tmp,{'goarch_386':'386.json','tags_verif':'tags.json','call_graph_cha':'cha.json'}[name])
+    rec={'exit':int(rc)}
+    if os.path.exists(f):
+        o=set(json.load(open(f))['coverage'].get('obligation_keys',[]))
+        rec['obligations']=len(o); rec['same_as_default']=(o==base)
+        rec['only_here']=sorted(o-base)[:10]; rec['missing_here']=sorted(base-o)[:10]
+        if o!=base and name!='call_graph_cha':
+            print("  THOROUGH %s: obligation set/verdicts differ from the default configuration (%d vs %d)"%(name,len(o),len(base)))
+    th[name]=rec
+e['coverage']['thorough']=th
+json.dump(e,open(ev,'w'),indent=1)
+PY
+for f in "$tmp"/386.out "$tmp"/tags.out; do grep -E "VIOLATED|UNDECIDED|FLOOR|ANCHOR" "$f" | sed "s|^|  [$(basename $f .out)] |" ; done
+# self-test mutants (never affect the exit status: on an edited tree a patch may not apply)
+if [ -z "$TABVERIF_NO_MUTANTS" ] && [ -f mutants/INDEX.tsv ]; then
+  fired=0; total=0; list=""
+  for m in $(awk -v p="$id" '$2==p {print $1}' mutants/INDEX.tsv); do
+    [ -f "mutants/$m.diff" ] || continue
+    total=$((total+1))
+    if NOTEST=1 mutants/run.sh "mutants/$m.diff" "$id" >/dev/null 2>&1; then fired=$((fired+1)); list="$list $m:fired"; else list="$list $m:silent"; fi
+  done
+  python3 - "$ev" "$fired" "$total" "$list" <<'PY'
+import json,sys
+ev,fired,total,lst=sys.argv[1:5]
+e=json.load(open(ev))
+e['coverage'].setdefault('thorough',{})['self_test_mutants']={'fired':int(fired),'total':int(total),'results':lst.split()}
+json.dump(e,open(ev,'w'),indent=1)
+PY
+  echo "  thorough: self-test mutants fired $fired/$total"
+fi
+if [ $worst -ne 0 ] && [ $rc -eq 0 ]; then
+  echo "VIOLATION property=$id replay=$ev (a thorough configuration disagrees or fails; see coverage.thorough)"
   exit 1
 fi
 exit $rc
